@@ -222,3 +222,41 @@ Theorem name_survives_save_open_macroman : forall v r r' pre,
                    read_name_part macroman_dec bs = Ok r'' /\ get_name r'' = v.
 Proof. exact name_survives_save_open_macroman_lemma. Qed.
 Print Assumptions name_survives_save_open_macroman.
+
+(* =========================================================== names given at construction *)
+(* Group.new / PixelLayer.frompil put the name into the legacy field with no '?' fallback:
+   "every name survives" is false for them (finding F-C19-3; witness U+0416 replayed on the code) *)
+Theorem ctor_name_save_refuted :
+  exists v, scalar_str v /\ Z.of_nat (length v) < 256 /\
+    forall pre, write_name_part macroman_enc pre (group_new_rec v) = Err ValueErr /\
+                write_name_part macroman_enc pre (frompil_rec v) = Err ValueErr.
+Proof. exact ctor_name_save_refuted_lemma. Qed.
+Print Assumptions ctor_name_save_refuted.
+
+(* under the guard "the legacy field can take the name in the save encoding" they do survive *)
+Theorem group_new_name_survives_save_open : forall enc dec v pre bs w data,
+  valid_str v -> joinable_free v = true ->
+  enc v = Some data -> dec data = Some v ->
+  write_name_part enc pre (group_new_rec v) = Ok (bs, w) ->
+  exists r, read_name_part dec bs = Ok r /\ get_name r = v.
+Proof. exact group_new_name_survives. Qed.
+Print Assumptions group_new_name_survives_save_open.
+
+Theorem frompil_name_survives_save_open : forall enc dec v pre bs w data,
+  enc v = Some data -> dec data = Some v ->
+  write_name_part enc pre (frompil_rec v) = Ok (bs, w) ->
+  exists r, read_name_part dec bs = Ok r /\ get_name r = v.
+Proof. exact frompil_name_survives. Qed.
+Print Assumptions frompil_name_survives_save_open.
+
+Example ctor_hyp : exists bs w, write_name_part macroman_enc 44 (group_new_rec [0xE9; 97]) = Ok (bs, w).
+Proof. eexists. eexists. vm_compute. reflexivity. Qed.
+
+(* the setter decides the fallback with mac_roman; saving with another encoding can still fail
+   (finding F-C19-4; witness U+00E9 saved with encoding ascii) - which is why name_survives_save_open
+   carries the hypothesis enc (rec_name r') = Some data *)
+Theorem name_save_other_encoding_refuted :
+  exists v r', scalar_str v /\ set_name macroman_enc v {| rec_name := []; rec_luni := None |} = Ok r' /\
+    forall pre, write_name_part ascii_enc pre r' = Err ValueErr.
+Proof. exact name_save_other_encoding_refuted_lemma. Qed.
+Print Assumptions name_save_other_encoding_refuted.
